@@ -105,7 +105,7 @@ pub fn run(ctx: &mut Ctx) {
         let input: Vec<u8> = seq.iter().flat_map(|t| toks[*t].iter().copied()).collect();
         for (macros, fnc1) in [(true, false), (false, false), (true, true), (false, true)] {
             if ctx.mine(item) {
-                eval(ctx, &EncCase { input: input.clone(), list: "default".into(), mask: 63, macros, fnc1, eci: None, order: 0, prelude: 0, skipdef: false }, "token_sequences_exhaustive");
+                eval(ctx, &EncCase { input: input.clone(), list: "default".into(), mask: 63, macros, fnc1, eci: None, order: 0, prelude: 0, skipdef: false, entry: 0 }, "token_sequences_exhaustive");
             }
             item += 1;
         }
@@ -120,7 +120,7 @@ pub fn run(ctx: &mut Ctx) {
             for start in 0..=1 {
                 if start <= cut && ctx.mine(item) {
                     for mask in [63u8, 62, 32, 2] {
-                        eval(ctx, &EncCase { input: full[start..cut].to_vec(), list: "default".into(), mask, macros: true, fnc1: false, eci: None, order: 0, prelude: 0, skipdef: false }, "truncations");
+                        eval(ctx, &EncCase { input: full[start..cut].to_vec(), list: "default".into(), mask, macros: true, fnc1: false, eci: None, order: 0, prelude: 0, skipdef: false, entry: 0 }, "truncations");
                     }
                 }
                 item += 1;
@@ -139,7 +139,7 @@ pub fn run(ctx: &mut Ctx) {
             for v in 0..=255u8 {
                 let mut m = full.clone();
                 m[posn] = v;
-                eval(ctx, &EncCase { input: m, list: "default".into(), mask: 63, macros: true, fnc1: false, eci: None, order: 0, prelude: 0, skipdef: false }, "near_miss_one_byte_replaced");
+                eval(ctx, &EncCase { input: m, list: "default".into(), mask: 63, macros: true, fnc1: false, eci: None, order: 0, prelude: 0, skipdef: false, entry: 0 }, "near_miss_one_byte_replaced");
             }
         }
         // nested envelopes and bodies that themselves look like pieces of an envelope
@@ -151,7 +151,7 @@ pub fn run(ctx: &mut Ctx) {
                     let tr2 = [head, body, TRAIL, TRAIL].concat();
                     for m in [nested, half, tr2] {
                         for mask in [63u8, 62, 3, 33] {
-                            eval(ctx, &EncCase { input: m.clone(), list: "default".into(), mask, macros: true, fnc1: false, eci: None, order: 0, prelude: 0, skipdef: false }, "nested_envelopes");
+                            eval(ctx, &EncCase { input: m.clone(), list: "default".into(), mask, macros: true, fnc1: false, eci: None, order: 0, prelude: 0, skipdef: false, entry: 0 }, "nested_envelopes");
                         }
                     }
                 }
@@ -174,7 +174,7 @@ pub fn run(ctx: &mut Ctx) {
                     for (macros, fnc1) in [(true, false), (false, false), (true, true), (false, true)] {
                         for skipdef in [false, true] {
                             let mask = if mi % 2 == 0 { 63 } else { 35 };
-                            eval(ctx, &EncCase { input: m.clone(), list: if order % 2 == 0 { "default".into() } else { "all".into() }, mask, macros, fnc1, eci: None, order, prelude, skipdef }, "builder_histories");
+                            eval(ctx, &EncCase { input: m.clone(), list: if order % 2 == 0 { "default".into() } else { "all".into() }, mask, macros, fnc1, eci: None, order, prelude, skipdef, entry: 0 }, "builder_histories");
                         }
                     }
                 }
@@ -186,7 +186,7 @@ pub fn run(ctx: &mut Ctx) {
     for i in 0..n {
         let input = if i % 4 == 3 { inputs::gen_input(&mut ctx.rng, 200) } else { inputs::macro_material(&mut ctx.rng, 60) };
         let (list, mask) = if ctx.rng.chance(1, 2) { ("default".to_string(), 63) } else { (inputs::gen_list_spec(&mut ctx.rng), inputs::gen_mask(&mut ctx.rng)) };
-        let c = EncCase { input, list, mask, macros: !ctx.rng.chance(1, 4), fnc1: ctx.rng.chance(1, 5), eci: None, order: ctx.rng.below(24) as u8, prelude: if ctx.rng.chance(1, 2) { 0 } else { ctx.rng.below(16) as u8 }, skipdef: ctx.rng.chance(1, 3) };
+        let c = EncCase { input, list, mask, macros: !ctx.rng.chance(1, 4), fnc1: ctx.rng.chance(1, 5), eci: None, order: ctx.rng.below(24) as u8, prelude: if ctx.rng.chance(1, 2) { 0 } else { ctx.rng.below(16) as u8 }, skipdef: ctx.rng.chance(1, 3), entry: 0 };
         eval(ctx, &c, "generated");
     }
 }
